@@ -53,14 +53,18 @@ class State(_train.Listener):
                 self.kauri_kernel = np.array(kernel, copy=True)
             return orig_fbs(kernel, *a, **k)
         self.patcher.setattr(kk, "find_best_split", fbs)
-        orig_ck = vars(KernelRIM)["_compute_kernel"]
-
-        def _compute_kernel(self_, X):
-            out = orig_ck(self_, X)
-            if self_ is self.model:
-                self.krim.append((np.array(X, dtype=float, copy=True), np.array(out, copy=True)))
-            return out
-        self.patcher.setattr(KernelRIM, "_compute_kernel", _compute_kernel)
+        orig_ck = vars(KernelRIM).get("_compute_kernel")
+        if orig_ck is None:
+            # the private helper does not exist in this tree: the kernels KernelRIM computes are then only seen through
+            # their effect (predict_proba on the training data and on fresh points, checked by the differential clauses)
+            ctx.count("kernelrim_kernel_tap_absent")
+        else:
+            def _compute_kernel(self_, X, *a, **k):
+                out = orig_ck(self_, X, *a, **k)
+                if self_ is self.model:
+                    self.krim.append((np.array(X, dtype=float, copy=True), np.array(out, copy=True)))
+                return out
+            self.patcher.setattr(KernelRIM, "_compute_kernel", _compute_kernel)
 
     def close(self):
         self.patcher.restore()
